@@ -132,7 +132,7 @@ def lowerAscii (c : Char) : Char := if 'A' ≤ c && c ≤ 'Z' then Char.ofNat (c
 
 /-- the optional time group `(?:\s*\(?HH:MM(?::SS)?\)?)?`; returns (H, M, S) texts. -/
 def parseTime (s : List Char) : Option (List Char × List Char × Option (List Char)) :=
-  let s1 := s.dropWhile (fun c => c = ' ' || c = '\t' || c = '\n' || c = '\r' || c.toNat = 11 || c.toNat = 12)
+  let s1 := s.dropWhile (fun c => c = ' ' || c = '\t' || c = '\n' || c = '\r' || c = Char.ofNat 11 || c = Char.ofNat 12)
   let s2 := match s1 with | '(' :: r => r | r => r
   match s2 with
   | h1 :: h2 :: ':' :: m1 :: m2 :: r =>
@@ -316,9 +316,9 @@ structure Row where
   data  : List (List Char)      -- formatted raw values
 
 def mkRow (types : List DType) (names : List (List Char)) (vals : List Val) : Row :=
-  { types := types, names := names, data := (types.zip vals).map (fun (t, v) => format t v) }
+  { types := types, names := names, data := List.zipWith format types vals }
 
-def Row.iter (r : Row) : List CastRes := (r.types.zip r.data).map (fun (t, d) => cast t d)
+def Row.iter (r : Row) : List CastRes := List.zipWith cast r.types r.data
 
 def Row.getIdx (r : Row) (i : Int) : Option CastRes :=
   match getIndex r.types i, getIndex r.data i with
@@ -327,7 +327,7 @@ def Row.getIdx (r : Row) (i : Int) : Option CastRes :=
 
 def Row.getSlice (r : Row) (sl : Slice) : Option (List CastRes) :=
   match Py.getSlice r.types sl, Py.getSlice r.data sl with
-  | some ts, some ds => some ((ts.zip ds).map (fun (t, d) => cast t d))
+  | some ts, some ds => some (List.zipWith cast ts ds)
   | _, _ => none
 
 /-- `make_field_index` keeps the *last* index for a repeated name (dict comprehension). -/
